@@ -322,6 +322,8 @@ def eval_C09(item):
 # C18
 
 def gen_item_C18(rng, idx, tier):
+    if idx % 4 == 3:
+        return exhaustive_item_C18(rng.randrange(len(gen.FOREST_SHAPES) * 6))
     case = gen.gen_compute_case(rng, maxpix=40 if tier == 'quick' else 80)
     if rng.random() < 0.7:
         case['mind'], case['minn'], case['crits'] = 0, 0, []
@@ -354,10 +356,54 @@ class FakeAxes(object):
         pass
 
 
+def synthetic_dendrogram(roots, k):
+    """a dendrogram with an arbitrary tree shape: one own pixel per structure (pixel = position in prefix order),
+    built by the library's own loader from a Newick text and a label map; returns (d, case, model request)"""
+    from astrodendro.io.util import parse_dendrogram
+    order = []
+
+    def walk(nd):
+        order.append(nd[0])
+        for c in nd[1]:
+            walk(c)
+    for r in roots:
+        walk(r)
+    n = len(order)
+    pix = dict((sid, i) for i, sid in enumerate(order))
+    data = np.array([float(x) for x in k[:n]])
+    lmap = np.array(order, dtype=np.int32)
+    heights = dict((sid, 0.0) for sid in order)
+    text = tree_text(roots, heights)
+    with warnings.catch_warnings():
+        warnings.simplefilter('ignore')
+        d = parse_dendrogram(text, data, lmap, {'min_value': float(min(k[:n])) - 1, 'min_delta': 0, 'min_npix': 0})
+    case = {'shape': [n], 'fb': 0, 'k': [int(x) for x in k[:n]], 'dtype': 'float64', 'minv': [int(min(k[:n])) - 1, 1], 'mind': 0, 'minn': 0,
+            'crits': [], 'periodic': [], 'adj': 'grid', 'layout': 'C', 'kind': 'synthetic'}
+
+    def txt(nd):
+        return '%d:%d' % (nd[0], pix[nd[0]]) + ('(%s)' % ','.join(txt(c) for c in nd[1]) if nd[1] else '')
+    req = 'setforest n=%d fb=0 vals=%s f=%s' % (n, ','.join(str(int(x)) for x in k[:n]), ';'.join(txt(r) for r in roots))
+    return d, case, req
+
+
 def eval_C18(item):
-    case = item['case']
-    res, d, a, steps = pc.base_eval({'case': case, 'ops': item['ops']}, 'C18')
-    st = steps[-1]
+    if 'forest' in item:
+        d, case, req = synthetic_dendrogram(item['forest'], item['k'])
+        item = dict(item)
+        item['case'] = case
+        res = {'corr': [], 'pred': [], 'hyp': [], 'known': [], 'tags': ['synthetic', 'nodes=%d' % len(case['k'])], 'nontrivial': len(case['k']) >= 3,
+               'key': repr((item['forest'], item['k'], item['keykind'], item['reverse']))}
+        wf = impl.forest_wellformed(d)
+        if wf:
+            res['pred'] += wf
+            return res
+        mobs = parse_block(session.driver().ask(req))
+        st = session.Step(('synthetic',), impl.observe(d, case), mobs, [])
+        res['corr'] += session.diff_obs(st.iobs, mobs, ['par', 'kids', 'lvl', 'anc', 'desc', 'h', 'vmin', 'vmax'], ['trunk', 'iter'])
+    else:
+        case = item['case']
+        res, d, a, steps = pc.base_eval({'case': case, 'ops': item['ops']}, 'C18')
+        st = steps[-1]
     if st.iobs is None or 'bad' in st.mobs:
         return res
     drv = session.driver()
@@ -503,3 +549,27 @@ def eval_C18(item):
             res['pred'].append('plot_contour(structure %r, subtree=%s) raised %s: %s' % (sid, item['subtree'], type(e).__name__, str(e)[:60]))
     res['tags'] += ['key=' + kk, 'reverse=%s' % item['reverse'], 'how=' + how]
     return res
+
+
+def exhaustive_item_C18(idx):
+    """all forest shapes with <= 7 nodes x (reverse) x (key kind), identifiers shuffled deterministically"""
+    import random
+    nshape = len(gen.FOREST_SHAPES)
+    shape = gen.FOREST_SHAPES[idx % nshape]
+    r = idx // nshape
+    reverse = bool(r % 2)
+    keykind = ['default', 'idtable', 'npix'][(r // 2) % 3]
+    rng = random.Random(idx)
+    n = sum(1 for _ in _walk_shape(shape))
+    ids = rng.sample(range(0, 40), n)
+    roots = gen.label_forest(shape, iter(ids))
+    k = [rng.randint(1, 6) for _ in range(n)]
+    return {'forest': roots, 'k': k, 'keykind': keykind, 'reverse': reverse, 'ktab': [rng.randint(0, 3) for _ in range(200)],
+            'pick': rng.randrange(1000), 'subtree': rng.random() < 0.5, 'how': rng.choice(['obj', 'id', 'list', 'idlist']), 'ops': []}
+
+
+def _walk_shape(shape):
+    for t in shape:
+        yield t
+        for x in _walk_shape(t):
+            yield x
